@@ -35,3 +35,19 @@ def run_deductive(rep):
     except ImportError:
         pass
     verify.verify_many(rep, items)
+
+
+# call-site conformance (validator dominance) is reported after the SMT obligations
+_run_smt = run_deductive
+
+
+def run_deductive(rep):        # noqa: F811
+    _run_smt(rep)
+    from ..static import dominance
+    for ep in dominance.ENTRY_POINTS:
+        dominance.report(rep, *ep)
+    try:
+        from ..static import fitted_guard
+        fitted_guard.report(rep)
+    except ImportError:
+        pass
